@@ -136,3 +136,221 @@ def cint(i, lo: int, hi: int) -> int:
         else:
             lo = mid + 1
     return lo
+
+
+# ----------------------------------------------------------------------------------------------------------------------
+# Engine T, sequence back end: structured strings (C34)
+# ----------------------------------------------------------------------------------------------------------------------
+# z3's sequence solver decides regex MEMBERSHIP of a concatenation of constrained pieces in milliseconds but does not
+# finish on the word equations that a capture-group encoding with fresh group variables produces (measured: `unknown`
+# after 60 s on `x.y.z-l.n` with unbounded digit strings).  The helpers below therefore keep a string as the z3 term the
+# translated code built (a concatenation of piece variables and literal characters), and resolve capture groups
+# STRUCTURALLY: the groups of a match are runs of consecutive pieces; every run is justified by a solver query
+# (whenever the string matches, membership of the run in the group's sub-regex is VALID under the stated piece constraints) and the justification is
+# re-stated as a safety condition of the final query.  That the justified decomposition is THE one CPython's matcher
+# reports rests on `unique_decomposition_queries` (solver-checked per pattern) plus the first-occurrence argument
+# stated there.
+
+
+def seq_leaves(t) -> List[Any]:
+    """Flatten a z3 string term into its concatenation leaves; literal leaves are split into single characters."""
+    import z3
+
+    out: List[Any] = []
+
+    def walk(x) -> None:
+        if z3.is_string_value(x):
+            for ch in x.as_string():
+                out.append(z3.StringVal(ch))
+        elif z3.is_app(x) and x.decl().kind() == z3.Z3_OP_SEQ_CONCAT:
+            for c in x.children():
+                walk(c)
+        else:
+            out.append(x)
+
+    walk(t)
+    return out
+
+
+def seq_concat(leaves: List[Any]):
+    import z3
+
+    if not leaves:
+        return z3.StringVal("")
+    return leaves[0] if len(leaves) == 1 else z3.Concat(*leaves)
+
+
+def seq_same(a, b) -> bool:
+    """Syntactic equality of two z3 string terms up to re-association of the concatenation / splitting of literals."""
+    la, lb = seq_leaves(a), seq_leaves(b)
+    return len(la) == len(lb) and all(x.eq(y) for x, y in zip(la, lb))
+
+
+class StructStrings:
+    """Solver-assisted structural reasoning about z3 string terms under a fixed list of assumptions (the constraints
+    on the piece variables).  Every query it answers is recorded in ``self.log``."""
+
+    def __init__(self, assume: List[Any], timeout_ms: int = 20000) -> None:
+        self.assume = list(assume)
+        self.timeout_ms = timeout_ms
+        self._cache: Dict[str, str] = {}
+        self.queries = 0
+
+    def _check(self, fml) -> str:
+        import z3
+
+        key = fml.sexpr()
+        if key not in self._cache:
+            s = z3.Solver()
+            s.set("timeout", self.timeout_ms)
+            s.add(*self.assume)
+            s.add(fml)
+            self._cache[key] = str(s.check())
+            self.queries += 1
+        return self._cache[key]
+
+    def valid(self, fml) -> bool:
+        import z3
+
+        return self._check(z3.Not(fml)) == "unsat"
+
+    def possible(self, fml) -> bool:
+        return self._check(fml) != "unsat"
+
+    def match(self, be, s, pattern: str, guard, ascii_only: bool = True):
+        """``re.compile(pattern).match(s)`` for an anchored pattern whose capturing groups are top-level items.
+        -> py2smt.SMatch(matched, groups) with groups = runs of pieces of ``s``."""
+        import re._constants as rc
+
+        import z3
+
+        from vlib import py2smt as T
+
+        nodes = T.parse_regex(pattern)
+        whole = T.regex_to_z3(nodes, ascii_only)
+        parts = T.regex_top_level_parts(nodes)
+        matched = z3.InRe(s, whole)
+        g = T.zguard(guard)
+        if not self.possible(z3.And(g, matched)):
+            be.safety.append(z3.Not(z3.And(g, matched)))  # re-proved by the final query
+            return T.SMatch(z3.BoolVal(False), [])
+        leaves = seq_leaves(s)
+        items = [(gi, sub, T.regex_to_z3(sub, ascii_only, top=False)) for gi, sub in parts]
+
+        def literal_char(sub) -> Optional[str]:
+            if len(sub) == 1 and sub[0][0] is rc.LITERAL:
+                return chr(sub[0][1])
+            return None
+
+        def search(j: int, i: int):
+            if j == len(items):
+                rest = leaves[i:]
+                if not rest or (len(rest) == 1 and z3.is_string_value(rest[0]) and rest[0].as_string() == "\n"):
+                    return []
+                return None
+            gi, sub, rx = items[j]
+            lit = literal_char(sub)
+            if lit is not None:
+                if i < len(leaves) and z3.is_string_value(leaves[i]) and leaves[i].as_string() == lit:
+                    tail = search(j + 1, i + 1)
+                    return None if tail is None else [(i, i + 1)] + tail
+                return None
+            for e in range(i, len(leaves) + 1):
+                if self.valid(z3.Implies(z3.And(g, matched), z3.InRe(seq_concat(leaves[i:e]), rx))):
+                    tail = search(j + 1, e)
+                    if tail is not None:
+                        return [(i, e)] + tail
+            return None
+
+        split = search(0, 0)
+        if split is None:
+            raise T.Untranslatable(f"no piece-wise decomposition of {s} for {pattern!r} is valid under the assumptions")
+        groups = {}
+        for (gi, sub, rx), (i, e) in zip(items, split):
+            run = seq_concat(leaves[i:e])
+            be.safety.append(z3.Implies(z3.And(g, matched), z3.InRe(run, rx)))
+            if gi:
+                groups[gi] = run
+        return T.SMatch(matched, [groups[k] for k in sorted(groups)])
+
+
+def _first_char_re(nodes, ascii_only: bool):
+    """z3 regex of the characters a word of the (non-nullable) sre node list can start with"""
+    import re._constants as rc
+
+    import z3
+
+    from vlib import py2smt as T
+
+    if not nodes:
+        raise T.Untranslatable("first-character set of an empty item")
+    op, av = nodes[0]
+    if op is rc.LITERAL:
+        return z3.Re(chr(av))
+    if op is rc.IN:
+        return T._class_re(av, ascii_only)
+    if op is rc.SUBPATTERN:
+        return _first_char_re(list(av[3]), ascii_only)
+    if op is rc.BRANCH:
+        return z3.Union(*[_first_char_re(list(b), ascii_only) for b in av[1]])
+    if op in (rc.MAX_REPEAT, rc.MIN_REPEAT) and av[0] >= 1:
+        return _first_char_re(list(av[2]), ascii_only)
+    raise T.Untranslatable(f"first-character set of {op}")
+
+
+def unique_decomposition_queries(pattern: str, ascii_only: bool = True) -> List[Any]:
+    """Side conditions (each must be UNSAT) under which a string has at most one decomposition into the top-level
+    items I1 I2 ... Im of an anchored pattern: no word of I_j contains a character that can start a word of I_{j+1}
+    (for the last item: the newline that ``$`` tolerates), and no item matches the empty string.  Then the end of I_j in
+    any match is the first occurrence of such a character after its start — so the captured groups are determined by
+    the string (first-occurrence argument; induction on j, not solver-checked).  Pure regex-emptiness queries."""
+    import z3
+
+    from vlib import py2smt as T
+
+    nodes = T.parse_regex(pattern)
+    parts = T.regex_top_level_parts(nodes)
+    rx = [T.regex_to_z3(sub, ascii_only, top=False) for _gi, sub in parts]
+    full = z3.Full(z3.ReSort(z3.StringSort()))
+    out = []
+    for j, r in enumerate(rx):
+        u = z3.String(f"u{j}")
+        nxt = _first_char_re(list(parts[j + 1][1]), ascii_only) if j + 1 < len(rx) else z3.Re("\n")
+        out.append(z3.InRe(u, z3.Intersect(r, z3.Concat(full, nxt, full))))
+        out.append(z3.InRe(z3.StringVal(""), r))
+    return out
+
+
+# ----------------------------------------------------------------------------------------------------------------------
+# Engine T: queries with a time-bounded second opinion
+# ----------------------------------------------------------------------------------------------------------------------
+def smt_excludes(ctx, variables: Dict[str, Any]) -> List[Any]:
+    """the known-finding exclusions exactly as SmtCtx.check applies them (for model sampling / SMT-LIB export)"""
+    import z3
+
+    ns = {k: getattr(z3, k) for k in ("And", "Or", "Not", "Implies", "If")}
+    ns.update(variables)
+    return [z3.Not(eval(e, dict(ns))) for e in ctx.excludes]  # noqa: S307 - committed known_findings.json only
+
+
+def smt_check(ctx, name: str, assumptions, negated_property, variables, replay, note: str = "", cross_s: int = 5) -> str:
+    """ctx.check + a second opinion on the SMT-LIB text bounded to ``cross_s`` seconds.  SmtCtx.check would give the
+    second solver (/usr/bin/z3 4.8.12, slow on sequence queries) the whole obligation timeout per query; a timeout of
+    the second solver is recorded as such, a definite disagreement becomes ``solver_disagreement``."""
+    import z3
+
+    from vlib.smt import second_opinion
+
+    r = ctx.check(name, assumptions=assumptions, negated_property=negated_property, variables=variables, replay=replay,
+                  cross_check=False, note=note)
+    if r in ("sat", "unsat"):
+        s = z3.Solver()
+        s.add(*assumptions)
+        s.add(*smt_excludes(ctx, variables))
+        s.add(negated_property)
+        other = second_opinion(s.to_smt2(), cross_s)
+        rec = ctx.records[-1]
+        rec["cross"] = other
+        if other["result"] in ("sat", "unsat") and other["result"] != r:
+            rec["result"] = r = "solver_disagreement"
+    return r
